@@ -26,6 +26,9 @@ pub enum Family {
     C14,
     C15,
     C16,
+    /// C16 by enumeration: every sequence of length 1..3 over the packet alphabet of the role, against
+    /// five application states
+    C16X,
     C17,
     C19,
     /// C19's send-window clause: outbound window = min(configured or handshake override, peer's Receive Maximum)
@@ -52,6 +55,7 @@ impl Family {
             "C14" => Family::C14,
             "C15" => Family::C15,
             "C16" => Family::C16,
+            "C16X" => Family::C16X,
             "C17" => Family::C17,
             "C19" => Family::C19,
             "C19W" => Family::C19W,
@@ -77,6 +81,7 @@ impl Family {
             Family::C14 => "C14",
             Family::C15 => "C15",
             Family::C16 => "C16",
+            Family::C16X => "C16X",
             Family::C17 => "C17",
             Family::C19 => "C19",
             Family::C19W => "C19W",
@@ -102,6 +107,7 @@ pub const ALL_FAMILIES: &[Family] = &[
     Family::C14,
     Family::C15,
     Family::C16,
+    Family::C16X,
     Family::C17,
     Family::C19,
     Family::C19W,
@@ -126,6 +132,7 @@ pub fn generate(f: Family, ch: &mut Choices) -> Plan {
         Family::C14 => gen_outbound(OutKind::C14, ch),
         Family::C15 => gen_c15(ch),
         Family::C16 => gen_c16(ch),
+        Family::C16X => gen_c16x(ch),
         Family::C17 => gen_c17(ch),
         Family::C19 => gen_c19(ch),
         Family::C19W => gen_c19w(ch),
@@ -1612,6 +1619,167 @@ fn gen_c16(ch: &mut Choices) -> Plan {
         plan.peer.skip_connect = true;
     }
     // liveness probe at the end: a request every live connection must answer
+    let probe = if role.is_server() {
+        Pkt::PingReq
+    } else {
+        Pkt::Publish(rc::Publish { dup: false, qos: 1, retain: false, topic: "probe".into(), pid: Some(0x6001), props: Vec::new(), payload: vec![1] })
+    };
+    plan.peer.script.push(step(probe, ver, Pre::Connected));
+    plan.ending = Ending::Settle;
+    plan
+}
+
+
+// ------------------------------------------------------------------------------------------
+// C16X: every packet sequence of length 1..3 over the role's alphabet, five application states
+
+pub const C16X_ROLES: [Role; 4] = [Role::S5, Role::S3, Role::C5, Role::C3];
+pub const C16X_STATES: u64 = 5;
+
+/// Size of the packet alphabet: id-carrying templates with ids {1, 2}, the others once.
+pub fn c16x_alphabet_len(ver: Ver) -> u64 {
+    if ver == Ver::V5 { 27 } else { 23 }
+}
+
+/// Letter `a` of the alphabet as a packet (`i` only names topics / filters).
+pub fn c16x_letter(ver: Ver, server_ep: bool, ch: &mut Choices, a: u32, i: u32) -> Pkt {
+    let v5 = ver == Ver::V5;
+    if a < 20 {
+        let pid = 1 + (a % 2) as u16;
+        match a / 2 {
+            0 => Pkt::Publish(mk_publish(ver, ch, i, 1, Some(pid), 2)),
+            1 => Pkt::Publish(mk_publish(ver, ch, i, 2, Some(pid), 2)),
+            2 => Pkt::PubAck(Ack::ok(pid)),
+            3 => Pkt::PubRec(Ack::ok(pid)),
+            4 => Pkt::PubRel(Ack::ok(pid)),
+            5 => Pkt::PubComp(Ack::ok(pid)),
+            6 => Pkt::Subscribe(rc::Subscribe { pid, props: Vec::new(), filters: vec![(format!("f/{i}"), 1)] }),
+            7 => Pkt::SubAck(rc::SubAck { pid, props: Vec::new(), codes: vec![0] }),
+            8 => Pkt::Unsubscribe(rc::Unsubscribe { pid, props: Vec::new(), filters: vec![format!("f/{i}")] }),
+            _ => Pkt::UnsubAck(rc::SubAck { pid, props: Vec::new(), codes: if v5 { vec![0] } else { Vec::new() } }),
+        }
+    } else {
+        match a - 20 {
+            0 => Pkt::Publish(mk_publish(ver, ch, i, 0, None, 2)),
+            1 => Pkt::PingReq,
+            2 => Pkt::PingResp,
+            3 => {
+                if server_ep {
+                    Pkt::Connect(Connect::new(ver, "c0", 60_000))
+                } else {
+                    Pkt::ConnAck(rc::ConnAck { session_present: false, code: 0, props: Vec::new() })
+                }
+            }
+            4 => Pkt::Disconnect(rc::Disconnect { code: 0, props: Vec::new() }),
+            5 => Pkt::Auth(rc::Disconnect { code: 0x18, props: vec![(21, PropVal::Str("m".into()))] }),
+            _ => Pkt::Disconnect(rc::Disconnect { code: 0x04, props: Vec::new() }),
+        }
+    }
+}
+
+fn c16x_block(max_len_le2: bool) -> u64 {
+    C16X_ROLES
+        .iter()
+        .map(|r| {
+            let a = c16x_alphabet_len(r.ver());
+            C16X_STATES * if max_len_le2 { a + a * a } else { a * a * a }
+        })
+        .sum()
+}
+
+/// Number of points of the enumeration: all sequences of length 1 and 2 first, then length 3.
+pub fn c16x_total() -> u64 {
+    c16x_block(true) + c16x_block(false)
+}
+
+/// Number of points that cover every sequence of length <= 2.
+pub fn c16x_total_le2() -> u64 {
+    c16x_block(true)
+}
+
+/// Point `p` (< c16x_total()) -> leading draws [role, state, len-1, letters...].
+pub fn c16x_point(mut p: u64) -> Vec<u32> {
+    let le2 = p < c16x_block(true);
+    if !le2 {
+        p -= c16x_block(true);
+    }
+    for (ri, r) in C16X_ROLES.iter().enumerate() {
+        let a = c16x_alphabet_len(r.ver());
+        let per_state = if le2 { a + a * a } else { a * a * a };
+        let n = C16X_STATES * per_state;
+        if p >= n {
+            p -= n;
+            continue;
+        }
+        let state = p / per_state;
+        let mut q = p % per_state;
+        let len = if le2 {
+            if q < a {
+                1
+            } else {
+                q -= a;
+                2
+            }
+        } else {
+            3
+        };
+        let mut v = vec![ri as u32, state as u32, len - 1];
+        let mut letters = Vec::new();
+        for _ in 0..len {
+            letters.push((q % a) as u32);
+            q /= a;
+        }
+        letters.reverse();
+        v.extend(letters);
+        return v;
+    }
+    unreachable!("c16x_point out of range")
+}
+
+fn gen_c16x(ch: &mut Choices) -> Plan {
+    let role = C16X_ROLES[ch.choose(4) as usize];
+    let state = ch.choose(C16X_STATES as u32);
+    let len = 1 + ch.choose(3);
+    let ver = role.ver();
+    let a = c16x_alphabet_len(ver) as u32;
+    let letters: Vec<u32> = (0..len).map(|_| ch.choose(a)).collect();
+    let mut plan = base_plan("C16X", role, ch);
+    plan.cfg.min_chunk = *ch.pick(&[32 * 1024u32, 0, 2]);
+    // application state
+    match state {
+        // idle, handlers complete at once
+        0 => plan.p_immediate = 1000,
+        // idle, handlers gated (completed by the simulator in a seeded order)
+        1 => plan.p_immediate = 0,
+        // busy: an at-least-once and an exactly-once send outstanding, the peer stays silent
+        2 => {
+            plan.p_immediate = 500;
+            plan.senders.push(vec![AppOp::PubQ1 { len: 3, pid: None }]);
+            plan.senders.push(vec![AppOp::PubQ2 { len: 3, pid: None }, AppOp::Release]);
+            plan.peer.auto_ack = false;
+        }
+        // busy: streamed send in progress, ready(), subscribe (client) / second publish (server); peer acknowledges
+        3 => {
+            plan.p_immediate = 500;
+            plan.senders.push(vec![AppOp::StreamQ1 { size: 10, chunks: vec![4, 6], pid: None }]);
+            plan.senders.push(vec![AppOp::Ready]);
+            plan.senders.push(vec![if role.is_server() { AppOp::PubQ1 { len: 1, pid: None } } else { AppOp::Subscribe { n: 1, pid: None } }]);
+            plan.peer.auto_ack = true;
+        }
+        // the sequence comes instead of the handshake
+        _ => {
+            plan.p_immediate = 500;
+            if role.is_server() {
+                plan.peer.skip_connect = true;
+            }
+        }
+    }
+    for (i, l) in letters.iter().enumerate() {
+        let p = c16x_letter(ver, role.is_server(), ch, *l, i as u32);
+        let pre = if state == 4 && i == 0 { Pre::None } else { Pre::Connected };
+        plan.peer.script.push(step(p, ver, pre));
+    }
+    plan.tags.push(format!("enum:state{state}:{}", letters.iter().map(|l| l.to_string()).collect::<Vec<_>>().join(".")));
     let probe = if role.is_server() {
         Pkt::PingReq
     } else {
